@@ -42,8 +42,8 @@ def run(R):
     R.add("traces_validated_against_impl", total)
     R.cov["block_sizes"] = bss if not thorough else "0..130 and %s" % bss[131:]
     R.cov["variants"] = variants
-    R.sample(json.loads(open(files[0]).readlines()[5]))
-    R.sample(json.loads(open(files[0]).readlines()[-1]))
+    R.sample_line(files[0], 5)
+    R.sample_line(files[0], 10**9)
     R.assumptions += ["block sizes above 65536 are not executed (the loop is linear in the block size)",
                       "length + padding overflowing size_t (misuse) is covered by C12, not here"]
 
